@@ -493,6 +493,15 @@ func genTree(r *hx.Rng, dir string, o imgOpts) (*tree, error) {
 	if o.unsupported == "ea_inode" {
 		xa("f06_"+strconv.Itoa(bs), "user.huge", r.Bytes(bs+500)) // goes to an EA inode
 	}
+	// name indices beyond 7 in the reference tools' table (e2fsprogs lib/ext2fs/ext_attr.c): 10 = "gnu." and
+	// 8 = "system.richacl" (the whole name, like the POSIX ACL indices 2 and 3); index 7 with and without a rest.
+	// Fixed values: the random stream of everything generated afterwards stays what it was.
+	// Finding ext4-xattr-name-index-unknown: a reader whose table ends at 7 reports them under invented names.
+	f07 := "f07_" + strconv.Itoa(bs+1)
+	xa(f07, "gnu.translator", []byte("/hurd/symlink\x00target\x00"))
+	xa(f07, "system.richacl", []byte{0, 0, 0, 0, 1, 0, 0, 0, 0xff, 0xff, 0xff, 0xff, 0, 0, 0, 0})
+	xa(f07, "system.data", []byte("d"))
+	xa(f07, "user.gnu.translator", []byte("not the gnu. index"))
 	// --- inode kind x xattr placement: every kind (file, directory, fast symlink, slow symlink) with attributes
 	// in the inode only, in an external block only, and in both. `big` never fits the in-inode space of a
 	// 256/512-byte inode; with 128-byte inodes everything goes to the external block (which i_blocks counts:
